@@ -19,6 +19,12 @@ func gen(g *vh.Gen) {
 		stream := smtpd.GenDialogue(g, c, pool, o)
 		g.Emit("smtp", append(c.Fields(), vh.H(stream))...)
 	}
+	// refusal storms: many oversized blocks refused in a row on one server, then a message that fits
+	for i := 0; i < g.N(3, 60); i++ {
+		c, pool := smtpd.GenCfg(g, o)
+		stream := smtpd.GenStorm(g, &c, pool, g.Pick2(11, 12, 17, 33))
+		g.Emit("smtp", append(c.Fields(), vh.H(stream))...)
+	}
 }
 
 // genAsm: the ASSEMBLED server (child process: config.Process from the environment, server.FullAssembly, real SMTP
@@ -39,6 +45,12 @@ func genAsm(g *vh.Gen) {
 		if !bytes.HasSuffix(bytes.ToUpper(bytes.TrimRight(stream, "\r\n")), []byte("QUIT")) {
 			stream = append(stream, []byte("QUIT\r\n")...)
 		}
+		g.Emit("asmr", append(c.Fields(), vh.H(stream))...)
+	}
+	for i := 0; i < g.N(2, 30); i++ {
+		c, pool := smtpd.GenCfg(g, o)
+		stream := smtpd.GenStorm(g, &c, pool, g.Pick2(11, 13, 21))
+		c.Store = g.Pick("mem", "file", "mem::4")
 		g.Emit("asmr", append(c.Fields(), vh.H(stream))...)
 	}
 }
